@@ -284,6 +284,12 @@ func (pr *prover) lowerBound(v ssa.Value, pt point, depth int) (int64, bool) {
 	if l, ok := pr.matchLower(v, pt); ok {
 		upd(l) // regexp contract R4
 	}
+	// v = w + c: the bound of w, shifted
+	if t := norm(v); t.v != nil && t.v != v && t.off != 0 {
+		if l, ok := pr.lowerBound(t.v, pt, depth+1); ok && l > -(1<<40) && t.off > -(1<<40) && (t.off < 0 || pr.boundedAbove(t.v, pt, 0)) {
+			upd(l + t.off)
+		}
+	}
 	switch x := v.(type) {
 	case virtualLen:
 		upd(0)
@@ -473,7 +479,9 @@ func (pr *prover) le(a, b term, pt point, depth int, seen map[[2]ssa.Value]bool)
 		last := pt.blk.Instrs[len(pt.blk.Instrs)-1]
 		switch x.Op {
 		case token.SUB:
-			if pr.nonNegAt(x.Y, pt) { // x.X - nonneg <= x.X
+			// x.X - nonneg <= x.X - unless the subtraction wraps around: a very negative x.X minus a length is a
+			// huge positive number. With x.X >= -1 and the subtrahend an int >= 0 the difference stays in range.
+			if lb, okLB := pr.lowerBound(x.X, pt, 0); pr.nonNegAt(x.Y, pt) && okLB && lb >= -1 {
 				xt := norm(x.X)
 				xt.off += a.off
 				if pr.le(xt, b, pt, depth+1, seen2) {
@@ -780,6 +788,8 @@ func runP9s(p *an.Prog, r *an.Result, only func(*ssa.Function) bool) {
 				} else if why := pr.matchLinear(fn, in, curBase, a, b); why != "" {
 					r.OK(name, construct+": "+what, an.InstrPos(in), why)
 				} else if why := pr.callerProves(fn, curBase, a, b); why != "" {
+					r.OK(name, construct+": "+what, an.InstrPos(in), why)
+				} else if why := pr.calleeProves(fn, in, a, b); why != "" {
 					r.OK(name, construct+": "+what, an.InstrPos(in), why)
 				} else {
 					r.Bad(name, construct+": "+what, an.InstrPos(in), fmt.Sprintf("%s: cannot show %s (%s <= %s) on every path; an out-of-range bound panics", an.FuncName(fn), what, a.String(p), b.String(p)))
